@@ -295,12 +295,14 @@ EXTRA = {
     "C02": "The command-line sub-check also draws families of anchored adapters (equal or different lengths, a lone "
            "adapter of the other kind next to them), soft-masked reads, near misses and reads with N in the adapter copy; "
            "for an indexed adapter a match is demanded when it is the only one occurring at the anchored end of an "
-           "ACGT-only read.",
+           "ACGT-only read. Parameters drawn include ;indels against --no-indels; reads with N get siblings that the index "
+           "cannot tell apart.",
     "C03": "--action=retain with a linked adapter (parts exact or with one edit) is checked against the interval from "
            "the start of the 5' match to the end of the 3' match.",
     "C06": "Scenarios include name- and quality-rewriting options, main output on standard output (with --fasta), "
            "adapter indexes, inputs without reads, and alternating exact/edited/N-containing copies of the reads so that "
-           "state carried inside a worker from one read to the next becomes visible.",
+           "state carried inside a worker from one read to the next becomes visible; a real-process sub-check requests "
+           "several cores while the process is restricted to one CPU.",
     "C07": "Reads of tens of kilobases (occurrence across power-of-two offsets) and a pickle round trip of the adapter "
            "are included.",
     "C08": "Sets with mixed per-adapter indel settings and tolerances, duplicate sequences, soft-masked reads; a history "
@@ -319,7 +321,8 @@ EXTRA = {
            "value E is probed behaviourally (the adapter with E substitutions must be found).",
     "C19": "Compression levels, --fasta on standard output next to redirect files without a recognised extension, and "
            "real-process runs under the spawn and forkserver start methods are included.",
-    "C20": "Identical named adapters for R1 and R2 are drawn; the text report's per-adapter totals are compared with JSON.",
+    "C20": "Identical named adapters for R1 and R2 are drawn; the text report's per-adapter totals and its allowed-errors "
+           "lines are compared with JSON and with int(L x rate) up to the number of non-N bases, where the table must end.",
 }
 for _k, _v in EXTRA.items():
     _c = CHECKS[_k]
